@@ -86,7 +86,7 @@ theorem noDuplicates_iff (incRex : Bool) (rexOf : List Val → List Nat) (c : Co
     (ks : List Constraint) (hn : 0 < c.cells.length)
     (h : discoverField incRex rexOf c c.cells.length = .ok (some ks)) (v : Option Bool) :
     Constraint.noDuplicates v ∈ ks ↔
-      (v = some true ∧ (c.ftype = .string ∨ c.ftype = .int) ∧ 1 < c.nonNull.length ∧
+      (v = some true ∧ c.ftype ≠ .real ∧ 1 < c.nonNull.length ∧
        c.nonNull.Pairwise (fun a b => a.eqv b = false)) :=
   Lemmas.noDuplicates_iff incRex rexOf c hwf ks hn h v
 
